@@ -119,9 +119,12 @@ Proof.
   - apply NoDup_names_filter, H1.
 Qed.
 
-Lemma wf_vcopy_remote a b t i : wf b -> wf (fst (vcopy_remote a b t i)).
+Lemma wf_vtransfer_with k a b src t i : wf b -> wf (fst (vtransfer_with k a b src t i)).
 Proof.
-  intros [H1 H2]. unfold vcopy_remote. destruct (ck_lookup (vs_cks a) (enc_name t i)); split; cbn; try exact H1.
+  intros [H1 H2]. unfold vtransfer_with.
+  destruct (match ck_lookup (vs_remote b) (enc_name t i) with
+            | Some c => negb (ck_src c =? 0) && (negb k || (ck_src c =? src)) | None => false end); [split; assumption|].
+  destruct (ck_lookup (vs_cks a) (enc_name t i)); split; cbn; try exact H1.
   - apply NoDup_ck_insert; [apply NoDup_names_filter, H2|apply names_ck_remove].
   - apply NoDup_names_filter, H2.
 Qed.
@@ -309,22 +312,57 @@ Proof.
   exfalso. eapply names_ck_remove. unfold names_of. apply (in_map fst) in EL. exact EL.
 Qed.
 
-(* a checkpoint transferred into the directory for remote checkpoints and applied by RestoreFromRemoteBackup *)
-Theorem copy_remote_restore a b t i b' c later b2 :
-  wf b ->
-  ck_lookup (vs_cks a) (enc_name t i) = Some c ->
-  vcopy_remote a b t i = (b', ROk) ->
+(* a checkpoint transferred into the directory for remote checkpoints from source src and applied by
+   RestoreFromRemoteBackup: the content restored is that of a checkpoint FROM THAT SOURCE — the one
+   just transferred, or the one already there completely from the same source (the shortcut) *)
+Theorem transfer_apply_same_source a b src t i b' later b2 :
+  wf b -> src <> 0 ->
+  vtransfer a b src t i = (b', ROk) ->
   vstep (run b' later) (ORestoreRemote t i) = (b2, ROk) ->
-  vs_val b2 = ck_val c.
+  exists c, vs_val b2 = ck_val c /\ ck_src c = src /\
+    ((ck_lookup (vs_remote b) (enc_name t i) = Some c) \/
+     (exists ca, ck_lookup (vs_cks a) (enc_name t i) = Some ca /\ ck_val c = ck_val ca /\ ck_dg c = ck_dg ca)).
 Proof.
-  intros Hw Ha Hc HR.
-  assert (Hw' : wf b') by (change b' with (fst (b', ROk)); rewrite <- Hc; apply wf_vcopy_remote, Hw).
-  unfold vcopy_remote in Hc. rewrite Ha in Hc. inversion Hc; subst b'. clear Hc.
+  intros Hw Hsrc Hc HR.
+  assert (Hw' : wf b') by (change b' with (fst (b', ROk)); rewrite <- Hc; apply wf_vtransfer_with, Hw).
   cbn in HR. match type of HR with context [ck_lookup ?l ?n] => destruct (ck_lookup l n) as [c'|] eqn:EL end; [|inversion HR].
   inversion HR; subst b2. rewrite vpurge_val. cbn.
-  apply run_preserves_remote in EL; [|exact Hw']. cbn in EL.
-  apply ck_lookup_In, In_ck_insert in EL as [EL|EL]; [now inversion EL|].
-  exfalso. eapply names_ck_remove. unfold names_of. apply (in_map fst) in EL. exact EL.
+  apply run_preserves_remote in EL; [|exact Hw'].
+  unfold vtransfer, vtransfer_with in Hc.
+  destruct (ck_lookup (vs_remote b) (enc_name t i)) as [c0|] eqn:E0.
+  - destruct (negb (ck_src c0 =? 0) && (negb true || (ck_src c0 =? src))) eqn:ES.
+    + inversion Hc; subst b'. rewrite E0 in EL. inversion EL; subst c'.
+      exists c0. split; [reflexivity|]. split; [|now left].
+      apply andb_prop in ES as [_ ES]. cbn in ES. now apply N.eqb_eq in ES.
+    + destruct (ck_lookup (vs_cks a) (enc_name t i)) as [ca|] eqn:EA; [|inversion Hc].
+      inversion Hc; subst b'. cbn in EL.
+      apply ck_lookup_In, In_ck_insert in EL as [EL|EL].
+      * inversion EL; subst c'. eexists. split; [reflexivity|]. split; [reflexivity|]. right. exists ca. auto.
+      * exfalso. eapply names_ck_remove. unfold names_of. apply (in_map fst) in EL. exact EL.
+  - cbn in Hc. destruct (ck_lookup (vs_cks a) (enc_name t i)) as [ca|] eqn:EA; [|inversion Hc].
+    inversion Hc; subst b'. cbn in EL.
+    apply ck_lookup_In, In_ck_insert in EL as [EL|EL].
+    + inversion EL; subst c'. eexists. split; [reflexivity|]. split; [reflexivity|]. right. exists ca. auto.
+    + exfalso. eapply names_ck_remove. unfold names_of. apply (in_map fst) in EL. exact EL.
+Qed.
+
+(* the shortcut keyed by (term,index) only: a snapshot of the same name transferred earlier from
+   ANOTHER source is taken for the requested one, and the apply restores the other source's content *)
+Theorem transfer_any_source_refuted :
+  exists a b src t i b' b2,
+    wf b /\ src <> 0 /\ ck_lookup (vs_cks a) (enc_name t i) <> None /\
+    vtransfer_any_source a b src t i = (b', ROk) /\
+    vstep b' (ORestoreRemote t i) = (b2, ROk) /\
+    (forall ca, ck_lookup (vs_cks a) (enc_name t i) = Some ca -> vs_val b2 <> ck_val ca).
+Proof.
+  pose (a := set_cks (vinit 0 5) [(enc_name 2 7, {| ck_val := 11; ck_dg := 1; ck_src := 0 |})]).
+  pose (b := set_remote (vinit 0 6) [(enc_name 2 7, {| ck_val := 22; ck_dg := 2; ck_src := 9 |})]).
+  exists a, b, 8, 2, 7.
+  eexists. eexists.
+  split; [split; cbn; repeat constructor; intuition|].
+  split; [discriminate|]. split; [vm_compute; discriminate|].
+  split; [vm_compute; reflexivity|]. split; [vm_compute; reflexivity|].
+  intros ca H. vm_compute in H. inversion H; subst. vm_compute. discriminate.
 Qed.
 
 (* ---------- purge at the value level: what disappears ---------- *)
